@@ -519,4 +519,808 @@ def build(tier, seed):
         for ob, case in zip(obligations_for("C74", fc, tier), fc.cases):
             plan.add(with_standin(ob, fc, case))
         plan.fn_under_contract(PT_FILE, fc.qualname)
+    add_conversion_half(plan, tier, seed)
     return plan
+
+
+# =====================================================================================================================
+# C74 (conversion half): convert_to_mbqc_formalism and the per-gate MBQC patterns of pennylane/ftqc/decomposition.py
+#
+# Postcondition (property statement): the converted circuit implements the original on the logical wires for EVERY
+# measurement outcome.  It is established modularly:
+#   (P) pattern contracts - the real queue_single_qubit_gate + queue_corrections (RZ, RotXZX with SYMBOLIC angles, H, S) and the
+#       real queue_cnot + cnot_corrections are RUN (they only queue operators), and the queued program is interpreted by an
+#       independent exact interpreter (below) on every outcome branch: for an arbitrary input state on the in-wire(s) (all basis
+#       inputs, one common scalar => the Kraus operator of the branch is c.U, c != 0, so entangled inputs are covered) the
+#       out-wire(s) carry U|psi>, every other touched wire is back in |0> (helper precondition of the NEXT pattern: the QubitMgr
+#       pool is "assumed to be in a reset state"), nothing outside {in} + acquired wires is touched, and the manager's active set
+#       is (active - in) + out.
+#   (C) composition contract - the real body of convert_to_mbqc_formalism is run with CALLEE CONTRACTS in place of the four
+#       pattern functions (they assert their preconditions and queue an abstract marker) over an enumeration of tape shapes; the
+#       resulting program must be the original operator sequence on consistently tracked wire chains and the final sample must
+#       read the chains of the requested wires IN THE REQUESTED ORDER.
+#   (E) bounded end-to-end stand-in: unmodified conversion of a few longer circuits, sampled branches, float interpreter.
+# =====================================================================================================================
+import cmath
+import math
+import random
+import zlib
+
+import numpy as np
+
+from vf.symx.ring import Poly, Unsupported
+from vf.symx.scalar import Sym, sym, to_poly
+
+DEC_FILE = "pennylane/ftqc/decomposition.py"
+
+
+class PolyRing:
+    """exact scalars: Laurent polynomials in exp(i*angle/48) over Q(zeta_96)"""
+    name = "exact-laurent"
+    exact = True
+
+    def arr(self, m):
+        return poly_matrix(np.asarray(m, dtype=object))
+
+    def is_zero(self, x):
+        return x.is_zero()
+
+    def phase(self, angle, sign=1):
+        a = angle if isinstance(angle, Sym) else Sym(angle)
+        return to_poly(G.e(a * sign))
+
+    def conj(self, a):
+        out = np.empty(a.shape, dtype=object)
+        for idx, x in np.ndenumerate(a):
+            out[idx] = x.conj()
+        return out
+
+    def mat(self, name, params=()):
+        fixed = {"Hadamard": G.H, "S": G.S, "PauliX": G.X, "PauliY": G.Y, "PauliZ": G.Z, "CZ": G.CZ, "CNOT": G.CNOT, "T": G.T}
+        if name in fixed:
+            return pm(fixed[name])
+        if name == "Adjoint(S)":
+            return pm_dagger(pm(G.S))
+        ps = [p if isinstance(p, Sym) else Sym(p) for p in params]
+        if name == "RotXZX":       # documented: R(phi, theta, omega) = RX(omega) RZ(theta) RX(phi)
+            return pm_matmul(pm_matmul(pm(G.RX(ps[2])), pm(G.RZ(ps[1]))), pm(G.RX(ps[0])))
+        par = {"RZ": G.RZ, "RX": G.RX, "RY": G.RY, "PhaseShift": G.PhaseShift}
+        if name in par:
+            return pm(par[name](ps[0]))
+        raise Unsupported(f"interpreter has no reference semantics for operator {name}")
+
+    def normalise(self, psi):
+        return psi
+
+
+class NumRing:
+    """numeric scalars.  exact=True: only Gaussian-integer valued (unnormalised) matrices are used, so complex128 arithmetic is exact
+    integer arithmetic (integrality and magnitude are asserted); exact=False: floats, state renormalised after each measurement."""
+
+    def __init__(self, exact):
+        self.exact = exact
+        self.name = "gaussian-integers" if exact else "float"
+
+    def arr(self, m):
+        return np.asarray(m, dtype=complex)
+
+    def is_zero(self, x):
+        return x == 0 if self.exact else abs(x) < 1e-8
+
+    def phase(self, angle, sign=1):
+        if self.exact:
+            if angle == 0:
+                return 1.0 + 0j
+            raise Unsupported("parametric phase in the Gaussian-integer interpreter")
+        return cmath.exp(1j * sign * float(angle))
+
+    def conj(self, a):
+        return np.conj(a)
+
+    def mat(self, name, params=()):
+        r = 1.0 if self.exact else 1 / math.sqrt(2)
+        fixed = {"Hadamard": [[r, r], [r, -r]], "S": [[1, 0], [0, 1j]], "Adjoint(S)": [[1, 0], [0, -1j]], "PauliX": [[0, 1], [1, 0]],
+                 "PauliY": [[0, -1j], [1j, 0]], "PauliZ": [[1, 0], [0, -1]],
+                 "CZ": [[1, 0, 0, 0], [0, 1, 0, 0], [0, 0, 1, 0], [0, 0, 0, -1]], "CNOT": [[1, 0, 0, 0], [0, 1, 0, 0], [0, 0, 0, 1], [0, 0, 1, 0]]}
+        if name in fixed:
+            return np.asarray(fixed[name], dtype=complex)
+        if self.exact:
+            raise Unsupported(f"operator {name} in the Gaussian-integer interpreter")
+        p = [float(x) for x in params]
+        rx = lambda t: np.array([[math.cos(t / 2), -1j * math.sin(t / 2)], [-1j * math.sin(t / 2), math.cos(t / 2)]])
+        rz = lambda t: np.array([[cmath.exp(-1j * t / 2), 0], [0, cmath.exp(1j * t / 2)]])
+        if name == "RotXZX":
+            return rx(p[2]) @ rz(p[1]) @ rx(p[0])
+        if name == "RZ":
+            return rz(p[0])
+        if name == "RX":
+            return rx(p[0])
+        if name == "RY":
+            return np.array([[math.cos(p[0] / 2), -math.sin(p[0] / 2)], [math.sin(p[0] / 2), math.cos(p[0] / 2)]], dtype=complex)
+        if name == "PhaseShift":
+            return np.array([[1, 0], [0, cmath.exp(1j * p[0])]])
+        if name == "T":
+            return np.array([[1, 0], [0, cmath.exp(1j * math.pi / 4)]])
+        raise Unsupported(f"interpreter has no reference semantics for operator {name}")
+
+    def normalise(self, psi):
+        if self.exact:
+            if psi.size and (np.max(np.abs(psi)) > 2.0 ** 50 or np.any(psi != np.round(psi.real) + 1j * np.round(psi.imag))):
+                raise RuntimeError("Gaussian-integer interpreter left the exact range")
+            return psi
+        n = np.linalg.norm(psi[0]) if psi.shape[0] == 1 else np.linalg.norm(psi) / math.sqrt(psi.shape[0])
+        return psi / n if n > 0 else psi
+
+
+class MState:
+    """state of the independent interpreter: amplitudes psi[batch, live wires...]; wires not in `live` are in |0> (clean) unless they
+    are listed in `dirty` (left in a measured eigenstate by a measurement without reset).  batch index j = basis input |j> on `inputs`."""
+
+    def __init__(self, ring, inputs=()):
+        self.ring = ring
+        k = len(inputs)
+        self.live = list(inputs)
+        self.psi = ring.arr(np.eye(2 ** k)).reshape([2 ** k] + [2] * k)
+        self.dirty = {}
+        self.touched = set(inputs)
+
+    def copy_with(self, psi, live, dirty):
+        s = MState.__new__(MState)
+        s.ring, s.psi, s.live, s.dirty, s.touched = self.ring, psi, list(live), dict(dirty), set(self.touched)
+        return s
+
+    def attach(self, w):
+        if w in self.live:
+            return
+        vec = self.dirty.pop(w, None)
+        if vec is None:
+            vec = self.ring.arr([1, 0])
+        self.psi = self.psi[..., None] * vec
+        self.live.append(w)
+        self.touched.add(w)
+
+    def apply(self, mat, wires):
+        for w in wires:
+            self.attach(w)
+        k = len(wires)
+        axes = [1 + self.live.index(w) for w in wires]
+        m = mat.reshape([2] * (2 * k))
+        out = np.tensordot(m, self.psi, axes=(list(range(k, 2 * k)), axes))
+        self.psi = np.moveaxis(out, list(range(k)), axes)
+
+    def measured(self, w, bra, ket, reset):
+        """new state after outcome with eigen-bra `bra` on wire w (None when the amplitude vanishes identically)"""
+        self.attach(w)
+        ax = 1 + self.live.index(w)
+        new = np.tensordot(self.psi, bra, axes=([ax], [0]))
+        if all(self.ring.is_zero(x) for x in new.flat) if new.dtype == object else not np.any(np.abs(new) > (0 if self.ring.exact else 1e-9)):
+            return None
+        live = [x for x in self.live if x != w]
+        dirty = dict(self.dirty)
+        if not reset:
+            dirty[w] = ket
+        return self.copy_with(self.ring.normalise(new), live, dirty)
+
+    def apply_op(self, op):
+        name = op.name
+        wires = list(op.wires)
+        ring = self.ring
+        if name == "GraphStatePrep":
+            hp = op.hyperparameters
+            if getattr(hp["one_qubit_ops"], "__name__", "") != "Hadamard" or getattr(hp["two_qubit_ops"], "__name__", "") != "CZ":
+                raise Unsupported("graph state with non-default one/two qubit operators")
+            graph = hp["graph"]
+            nodes = sorted(graph.nodes)          # documented: wires are mapped 1:1 to the (sorted) graph nodes
+            if len(nodes) != len(wires):
+                raise Unsupported("graph/wires size mismatch")
+            at = dict(zip(nodes, wires))
+            for w in wires:
+                self.apply(ring.mat("Hadamard"), [w])
+            for a, b in graph.edges:
+                self.apply(ring.mat("CZ"), [at[a], at[b]])
+            return
+        if name in ("GlobalPhase", "Identity") or not wires:
+            return      # global phases are not tracked (equality of states is up to a branch-dependent non-zero scalar)
+        self.apply(ring.mat(name, tuple(op.data)), wires)
+
+
+def m_basis(ring, op):
+    """(bras, kets) of the two outcomes of a mid-circuit measurement operator (documented bases, unnormalised):
+    MidMeasure: |0>, |1>;  plane XY, angle a: |0> +/- e^{ia}|1>  (X: a=0, Y: a=pi/2)"""
+    cls = type(op).__name__
+    one = ring.arr([1])[0]
+    zero = one - one
+    if cls in ("MidMeasure", "MeasureNode") or (cls != "ParametricMidMeasure" and not hasattr(op, "plane")):
+        if cls not in ("MidMeasure",):
+            raise Unsupported(f"measurement operator {cls}")
+        kets = [ring.arr([one, zero]), ring.arr([zero, one])]
+        return kets, kets
+    if op.plane != "XY":
+        raise Unsupported(f"measurement plane {op.plane}")
+    if cls == "XMidMeasure":
+        ph, phc = one, one
+    elif cls == "YMidMeasure":
+        ph = ring.arr([1j])[0]
+        phc = ring.arr([-1j])[0]
+    else:
+        ph, phc = ring.phase(op.angle, 1), ring.phase(op.angle, -1)
+    s = 1.0 if ring.exact else 1 / math.sqrt(2)
+    sc = ring.arr([s])[0]
+    kets = [ring.arr([one * sc, ph * sc]), ring.arr([one * sc, (zero - ph) * sc])]
+    bras = [ring.arr([one * sc, phc * sc]), ring.arr([one * sc, (zero - phc) * sc])]
+    return bras, kets
+
+
+def is_measurement(op):
+    return type(op).__name__ in ("MidMeasure", "ParametricMidMeasure", "XMidMeasure", "YMidMeasure")
+
+
+def mv_truth(mv, outcomes):
+    """value of a MeasurementValue on concrete outcome bits (real processing_fn; a conditional measurement that was not executed
+    contributes 0: cond_measure's `v1 or v2` convention)"""
+    return bool(mv.processing_fn(*[outcomes.get(m.meas_uid, 0) for m in mv.measurements]))
+
+
+def mbqc_run(ring, ops, st, leaf, mode="all", rng=None, forced=None):
+    """interpret a queued MBQC program; explores every outcome branch (mode 'all'), one sampled branch ('sample') or the given one
+    (forced = list of outcome bits).  Returns the first non-None result of leaf(state, outcomes, record), else None."""
+    count = [0]
+
+    def rec(i, st, outcomes, record):
+        while i < len(ops):
+            op = ops[i]
+            i += 1
+            if type(op).__name__ == "Conditional":
+                if not mv_truth(op.meas_val, outcomes):
+                    continue
+                op = op.base
+            if is_measurement(op):
+                if op.postselect is not None:
+                    raise Unsupported("postselected measurement")
+                w = op.wires[0]
+                bras, kets = m_basis(ring, op)
+                options = []
+                for m in (0, 1):
+                    s2 = st.measured(w, bras[m], kets[m], bool(op.reset))
+                    if s2 is not None:
+                        options.append((m, s2))
+                if forced is not None:
+                    options = [o for o in options if len(record) < len(forced) and o[0] == forced[len(record)]]
+                elif mode == "sample" and len(options) > 1:
+                    options = [options[rng.randrange(2)]]     # both outcomes of these patterns are equally likely; any feasible one will do
+                for m, s2 in options:
+                    r = rec(i, s2, {**outcomes, op.meas_uid: m}, record + [m])
+                    if r is not None:
+                        return r
+                return None
+            st.apply_op(op)
+        count[0] += 1
+        return leaf(st, outcomes, record)
+    res = rec(0, st, {}, [])
+    return res, count[0]
+
+
+def proportional_to(ring, A, B):
+    """A == c.B entrywise for one scalar c != 0"""
+    if A.shape != B.shape:
+        return False
+    if ring.name == "float":
+        na, nb = np.linalg.norm(A), np.linalg.norm(B)
+        if na < 1e-9 or nb < 1e-9:
+            return False
+        A, B = A / na, B / nb
+        piv = np.unravel_index(int(np.argmax(np.abs(B))), B.shape)
+        if abs(A[piv]) < 1e-7:
+            return False
+        return bool(np.max(np.abs(A * B[piv] - A[piv] * B)) < 1e-7)
+    piv = next((idx for idx, x in np.ndenumerate(B) if not ring.is_zero(x)), None)
+    if piv is None or ring.is_zero(A[piv]):
+        return False
+    return all(ring.is_zero(x * B[piv] - A[piv] * B[idx]) for idx, x in np.ndenumerate(A))
+
+
+def kraus_of(st, outs):
+    """matrix K[k, j] = amplitude of |k> on the out wires for basis input |j>, or a string describing why there is none"""
+    if st.dirty:
+        return f"wire(s) {sorted(st.dirty, key=str)} were measured without reset: left in the measured eigenstate, not |0>"
+    if set(st.live) != set(outs):
+        return f"wires {sorted(set(st.live) - set(outs), key=str)} are still part of the state (not measured and reset) / live={st.live}"
+    psi = np.moveaxis(st.psi, [1 + st.live.index(w) for w in outs], list(range(1, 1 + len(outs))))
+    return psi.reshape(psi.shape[0], -1).T
+
+
+def real_dec():
+    import pennylane as qp
+    from pennylane.ftqc import decomposition as D
+    from pennylane.ftqc.utils import QubitMgr
+    from pennylane.core.queuing import AnnotatedQueue
+    from pennylane.core.qscript import QuantumScript
+    return qp, D, QubitMgr, AnnotatedQueue, QuantumScript
+
+
+POOLS = [(5, 0, 0), (9, 3, 2), (18, 0, 5)]          # QubitMgr layouts: (num_qubits, start_idx, wires acquired before the in-wire)
+POOLS2 = [(15, 0, 0), (20, 2, 3)]
+
+
+def run_pattern(gate, diag, params, ring, pool, forced=None):
+    """RUN the real pattern functions for one gate and interpret what they queued.  Returns None or a violation dict."""
+    qp, D, QubitMgr, AnnotatedQueue, QuantumScript = real_dec()
+    from pennylane.ftqc import RotXZX
+    nq, start, pre = pool
+    qm = QubitMgr(num_qubits=nq, start_idx=start)
+    for _ in range(pre):
+        qm.acquire_qubit()
+    two = gate == "CNOT"
+    ins = [qm.acquire_qubit() for _ in range(2 if two else 1)]
+    active0, inactive0 = set(qm.active), set(qm.inactive)
+    mk = {"RZ": lambda: qp.RZ(params[0], "L"), "RotXZX": lambda: RotXZX(params[0], params[1], params[2], "L"), "H": lambda: qp.H("L"),
+          "S": lambda: qp.S("L"), "CNOT": lambda: qp.CNOT(["Lc", "Lt"])}
+    op = mk[gate]()
+    with AnnotatedQueue() as q:
+        if two:
+            oc, ot, ms = D.queue_cnot(qm, ins[0], ins[1], diag)
+            D.cnot_corrections(ms)(oc, ot)
+            outs = [oc, ot]
+        else:
+            o1, ms = D.queue_single_qubit_gate(qm, op, in_wire=ins[0], diagonalize_mcms=diag)
+            D.queue_corrections(op, ms)(o1)
+            outs = [o1]
+    ops = list(QuantumScript.from_queue(q).operations)
+    inputs = dict(gate=gate, diagonalize_mcms=diag, pool=dict(num_qubits=nq, start_idx=start, acquired_before=pre), in_wires=ins,
+                  params=[str(p) for p in params])
+    exp_active = (active0 - set(ins)) | set(outs)
+    if set(qm.active) != exp_active or len(set(outs)) != len(outs) or any(o in active0 for o in outs):
+        return dict(inputs=inputs, observed=f"QubitMgr.active={sorted(qm.active)} out={outs}",
+                    expected=f"active == (active before - in) + out == {sorted(exp_active)}, out wires freshly acquired")
+    U = ring.mat(op.name, tuple(op.data))
+    st = MState(ring, inputs=ins)
+
+    def leaf(st, outcomes, record):
+        bad_touch = st.touched - set(ins) - inactive0
+        if bad_touch:
+            return dict(inputs=dict(inputs, outcomes=record), observed=f"pattern acts on wires {sorted(bad_touch, key=str)}",
+                        expected="only the in-wire(s) and wires acquired from the pool are touched")
+        K = kraus_of(st, outs)
+        if isinstance(K, str):
+            return dict(inputs=dict(inputs, outcomes=record), observed=K,
+                        expected="every wire released to the QubitMgr pool is back in |0> (the pool is handed out as |0> to the next pattern)")
+        if not proportional_to(ring, K, U):
+            return dict(inputs=dict(inputs, outcomes=record), observed="state on the out wire(s) is not c.U|psi> for the basis inputs: K=" + str(K.tolist())[:400],
+                        expected=f"out wire(s) carry {gate}|psi> for every input |psi> (one non-zero scalar per outcome branch)")
+        return None
+    res, n = mbqc_run(ring, ops, st, leaf, forced=forced)
+    if res is None and n == 0:
+        return dict(inputs=inputs, observed="no outcome branch has non-zero amplitude", expected="at least one feasible branch", vacuous=True)
+    if res is None and forced is None:
+        released = (set(ins) | (st.touched if False else set())) & set(qm.active)
+        if released:
+            return dict(inputs=inputs, observed=f"in-wire {sorted(released)} still active", expected="in-wire released")
+    return res
+
+
+PATTERN_FN = {"RZ": "_rz_measurements", "RotXZX": "_rot_measurements", "H": "_hadamard_measurements", "S": "_s_measurements",
+              "CNOT": "cnot_measurements"}
+PATTERN_PARAMS = {"RZ": ["a"], "RotXZX": ["a", "b", "c"], "H": [], "S": [], "CNOT": []}
+
+
+def pattern_obligation(gate, diag, seed):
+    names = PATTERN_PARAMS[gate]
+    symbolic = bool(names)
+    pools = POOLS2 if gate == "CNOT" else POOLS
+    mode = "diagonalized" if diag else "default"
+    name = f"C74/decomposition:{PATTERN_FN[gate]}/teleports-{gate}+aux-wires-reset[{mode}]/all-outcomes"
+    desc = (f"real queue_{'cnot + cnot' if gate == 'CNOT' else 'single_qubit_gate + queue'}_corrections for {gate}: on EVERY outcome branch the out wire(s) "
+            f"carry {gate}|psi> (one scalar for all basis inputs), all other touched wires are |0> again, QubitMgr frame"
+            + (" -- all angles (exact Laurent polynomials)" if symbolic else " -- exact Gaussian-integer arithmetic"))
+
+    def fn():
+        rng = random.Random(zlib.crc32(f"{seed}:{name}".encode()))
+        ring = PolyRing() if symbolic else NumRing(True)
+        params = [sym(n) for n in names]
+        for pool in (pools if not symbolic else pools[:2]):
+            bad = run_pattern(gate, diag, params, ring, pool)
+            if not bad:
+                continue
+            if bad.get("vacuous"):
+                return Outcome(FAULT, "mbqc-interpreter", str(bad))
+            if not symbolic:     # the run itself is a native run of the real functions on concrete inputs
+                return Outcome(REFUTED, "real-pattern-run+exact-interpreter", str(bad), witness=dict(inputs=bad["inputs"]),
+                               replay=dict(confirmed=True, observed=bad["observed"], expected=bad["expected"], inputs=bad["inputs"]))
+            # symbolic refutation: replay the same branch at concrete angles on the real functions with the float interpreter
+            for _ in range(12):
+                pt = {n: math.pi * rng.randint(-46, 46) / 23.0 + rng.uniform(-0.3, 0.3) for n in names}
+                fb = run_pattern(gate, diag, [pt[n] for n in names], NumRing(False), pool, forced=bad["inputs"].get("outcomes"))
+                if fb and not fb.get("vacuous"):
+                    return Outcome(REFUTED, "real-pattern-run+exact-interpreter", str(bad), witness=dict(point=pt, inputs=bad["inputs"]),
+                                   replay=dict(confirmed=True, point=pt, observed=fb["observed"], expected=fb["expected"], inputs=fb["inputs"]))
+            return Outcome(REFUTED, "real-pattern-run+exact-interpreter", str(bad), witness=dict(inputs=bad["inputs"]),
+                           replay=dict(confirmed=False, note="symbolic violation not reproduced at 12 float points"))
+        return Outcome(DISCHARGED, "real-pattern-run+exact-interpreter(" + ring.name + ")", desc)
+    return Obligation(name, "post", fn, func=(DEC_FILE, PATTERN_FN[gate]), sample=desc, timeout=600)
+
+
+# ------------------------------------------------------------------------------------------- (C) composition with callee contracts
+class Violation(Exception):
+    def __init__(self, observed, expected):
+        super().__init__(observed)
+        self.observed, self.expected = observed, expected
+
+
+def composition_run(ops_spec, meas_spec, diag, labels):
+    """Build the tape, run the REAL convert_to_mbqc_formalism with callee contracts for the four pattern functions, check the result.
+    ops_spec: list of (kind, wire indices); meas_spec: None (sample()) or list of wire indices.  Returns None or a violation dict."""
+    qp, D, QubitMgr, AnnotatedQueue, QuantumScript = real_dec()
+    from pennylane.ftqc import RotXZX
+    from pennylane.core.operator import Operator
+    L = lambda i: labels[i]
+    mkop = {"RZ": lambda w: qp.RZ(sym("t"), L(w[0])), "RotXZX": lambda w: RotXZX(sym("a"), sym("b"), sym("c"), L(w[0])),
+            "H": lambda w: qp.H(L(w[0])), "S": lambda w: qp.S(L(w[0])), "X": lambda w: qp.X(L(w[0])), "Y": lambda w: qp.Y(L(w[0])),
+            "Z": lambda w: qp.Z(L(w[0])), "I": lambda w: qp.Identity(L(w[0])), "I0": lambda w: qp.Identity(wires=[]),
+            "GP": lambda w: qp.GlobalPhase(sym("g")), "CNOT": lambda w: qp.CNOT([L(w[0]), L(w[1])])}
+    ops = [mkop[k](w) for k, w in ops_spec]
+    mp = qp.sample() if meas_spec is None else qp.sample(wires=[L(i) for i in meas_spec])
+    tape = QuantumScript(ops, [mp])
+    inputs = dict(operations=[f"{k}{[L(i) for i in w]}" for k, w in ops_spec],
+                  measurement="sample()" if meas_spec is None else f"sample(wires={[L(i) for i in meas_spec]})", diagonalize_mcms=diag)
+
+    class Marker(Operator):          # abstract effect queued by a callee contract
+        num_wires = None
+
+        def __init__(self, kind, payload, wires):
+            self.kind, self.payload = kind, payload
+            super().__init__(wires=wires)
+
+    state = dict(in_model=0, mgr=None, body_acquired=[], body_released=[])
+
+    class SpyMgr(QubitMgr):
+        def __init__(self, *a, **k):
+            super().__init__(*a, **k)
+            state["mgr"] = self
+
+        def acquire_qubit(self):
+            idx = super().acquire_qubit()
+            if not state["in_model"]:
+                state["body_acquired"].append(idx)
+            return idx
+
+        def release_qubit(self, idx):
+            if not state["in_model"]:
+                state["body_released"].append(idx)
+            return super().release_qubit(idx)
+
+    def pre(cond, observed, expected):
+        if not cond:
+            raise Violation(observed, expected)
+
+    def model_single(q_mgr, op, in_wire, diagonalize_mcms):
+        pre(q_mgr is state["mgr"], "queue_single_qubit_gate called with a different QubitMgr", "the manager that allocated the logical wires")
+        pre(bool(diagonalize_mcms) == bool(diag), f"queue_single_qubit_gate(diagonalize_mcms={diagonalize_mcms})", f"diagonalize_mcms={diag} passed on")
+        pre(in_wire in q_mgr.active, f"in_wire {in_wire} is not an active wire of the manager", "in-wire holds a logical qubit (active)")
+        state["in_model"] += 1
+        try:
+            aux = q_mgr.acquire_qubits(4)
+            q_mgr.release_qubits([in_wire] + aux[:-1])
+        finally:
+            state["in_model"] -= 1
+        toks = [("m", id(op), len(state.setdefault("calls", [])), k) for k in range(4)]
+        state["calls"].append(toks)
+        Marker("gate1", dict(op=op, src=in_wire, dst=aux[-1], toks=toks), [in_wire, aux[-1]])
+        return aux[-1], toks
+
+    def model_corr(op, measurements):
+        def f(wire):
+            Marker("corr1", dict(op=op, toks=list(measurements), wire=wire), [wire])
+        return f
+
+    def model_cnot(q_mgr, ctrl_idx, target_idx, diagonalize_mcms=False):
+        pre(q_mgr is state["mgr"], "queue_cnot called with a different QubitMgr", "the manager that allocated the logical wires")
+        pre(bool(diagonalize_mcms) == bool(diag), f"queue_cnot(diagonalize_mcms={diagonalize_mcms})", f"diagonalize_mcms={diag} passed on")
+        pre(ctrl_idx in q_mgr.active and target_idx in q_mgr.active and ctrl_idx != target_idx,
+            f"queue_cnot in-wires {ctrl_idx}, {target_idx} not two distinct active wires", "in-wires hold logical qubits")
+        state["in_model"] += 1
+        try:
+            aux = q_mgr.acquire_qubits(13)
+            q_mgr.release_qubits([ctrl_idx, target_idx] + aux[0:5] + aux[6:-1])
+        finally:
+            state["in_model"] -= 1
+        toks = [("m", "cnot", len(state.setdefault("calls", [])), k) for k in range(13)]
+        state["calls"].append(toks)
+        Marker("gate2", dict(src=[ctrl_idx, target_idx], dst=[aux[5], aux[12]], toks=toks), [ctrl_idx, target_idx, aux[5], aux[12]])
+        return aux[5], aux[12], toks
+
+    def model_cnot_corr(measurements):
+        def f(ctrl_wire, target_wire):
+            Marker("corr2", dict(toks=list(measurements), wires=[ctrl_wire, target_wire]), [ctrl_wire, target_wire])
+        return f
+
+    saved = {n: getattr(D, n) for n in ("queue_single_qubit_gate", "queue_corrections", "queue_cnot", "cnot_corrections", "QubitMgr")}
+    try:
+        D.queue_single_qubit_gate, D.queue_corrections, D.queue_cnot, D.cnot_corrections, D.QubitMgr = \
+            model_single, model_corr, model_cnot, model_cnot_corr, SpyMgr
+        try:
+            (new_tape,), _post = D.convert_to_mbqc_formalism(tape, diagonalize_mcms=diag)
+        except Violation as v:
+            return dict(inputs=inputs, observed=v.observed, expected=v.expected)
+    finally:
+        for n, v in saved.items():
+            setattr(D, n, v)
+
+    def bad(observed, expected):
+        return dict(inputs=inputs, observed=observed, expected=expected)
+    if state["body_released"]:
+        return bad(f"the body released wires {state['body_released']} itself", "wires are only released by the patterns (after measure+reset)")
+    # ---- collapse markers into events
+    events = []
+    q = list(new_tape.operations)
+    i = 0
+    while i < len(q):
+        o = q[i]
+        if isinstance(o, Marker):
+            nxt = q[i + 1] if i + 1 < len(q) else None
+            if o.kind == "gate1":
+                p = o.payload
+                if not (isinstance(nxt, Marker) and nxt.kind == "corr1" and nxt.payload["op"] is p["op"] and nxt.payload["toks"] == p["toks"]
+                        and nxt.payload["wire"] == p["dst"]):
+                    return bad(f"pattern of {p['op'].name} on wire {p['src']}->{p['dst']} is not followed by its byproduct correction on the out wire "
+                               f"with its own measurements m1..m4 (got {getattr(nxt, 'payload', nxt)})",
+                               "queue_corrections(op, measurements)(out wire) right after queue_single_qubit_gate")
+                events.append(("gate1", p["op"], [p["src"]], [p["dst"]]))
+                i += 2
+                continue
+            if o.kind == "gate2":
+                p = o.payload
+                if not (isinstance(nxt, Marker) and nxt.kind == "corr2" and nxt.payload["toks"] == p["toks"] and nxt.payload["wires"] == p["dst"]):
+                    return bad(f"CNOT pattern {p['src']}->{p['dst']} not followed by its corrections on (ctrl out, target out): {getattr(nxt, 'payload', nxt)}",
+                               "cnot_corrections(measurements)(ctrl out, target out) right after queue_cnot")
+                events.append(("gate2", None, p["src"], p["dst"]))
+                i += 2
+                continue
+            return bad(f"byproduct correction {o.payload} without its pattern", "corrections follow their pattern")
+        events.append(("phys", o, list(o.wires), list(o.wires)))
+        i += 1
+    if len(events) != len(ops):
+        return bad(f"{len(events)} operations/patterns for {len(ops)} original operations", "one pattern / physical gate per original operation, in order")
+    pos, used = {}, set()
+    body_acq = set(state["body_acquired"])
+
+    def locate(w, p):
+        """physical wire p is where logical wire w lives now (first use: a clean wire reserved by the body)"""
+        if w in pos:
+            return pos[w] == p
+        if p in body_acq and p not in used and p not in pos.values():
+            pos[w] = p
+            return True
+        return False
+    def reserved():
+        """clean wires the body holds for logical wires that have not been used yet (a released, reset wire may be handed out again)"""
+        return body_acq - used
+
+    for orig, (kind, eop, src, dst) in zip(ops, events):
+        nm = orig.name
+        if nm == "GlobalPhase":
+            ok = kind == "phys" and eop.name == "GlobalPhase" and not src and len(eop.data) == 1 and eop.data[0] is orig.data[0]
+        elif nm in ("PauliX", "PauliY", "PauliZ", "Identity"):
+            ok = kind == "phys" and type(eop) is type(orig) and len(src) == len(orig.wires) and all(locate(w, p) for w, p in zip(orig.wires, src))
+        elif nm == "CNOT":
+            ok = kind == "gate2" and all(locate(w, p) for w, p in zip(orig.wires, src)) and len(set(dst)) == 2 and not (set(dst) & (reserved() | set(pos.values())))
+        else:
+            ok = kind == "gate1" and eop is orig and locate(orig.wires[0], src[0]) and dst[0] not in reserved() and dst[0] not in pos.values()
+        if not ok:
+            return bad(f"original {orig} became {kind}:{eop if eop is not None else 'CNOT'} on physical wires {src}->{dst} (logical locations {pos})",
+                       "the same gate applied to the current physical location of its logical wire(s)")
+        used |= set(src) | set(dst)
+        for w, d in zip(orig.wires, dst):
+            pos[w] = d
+    # ---- the final measurement
+    ms = new_tape.measurements
+    if len(ms) != 1 or type(ms[0]).__name__ != "SampleMP":
+        return bad(f"measurements {ms}", "a single sample measurement")
+    want = list(mp.wires) if len(mp.wires) else list(tape.wires)
+    got = list(ms[0].wires)
+    if len(got) != len(want) or len(set(got)) != len(got):
+        return bad(f"sample on physical wires {got}", f"one distinct physical wire per requested logical wire {want}")
+    for w, p in zip(want, got):
+        if not locate(w, p):
+            return bad(f"sample(wires={got}): position {want.index(w)} reads physical wire {p}, but logical wire {w!r} is on "
+                       f"{pos.get(w, 'a clean reserved wire')} (locations {pos})",
+                       f"sample(wires=[location of w for w in {want}]) -- in the order requested by the original measurement")
+    return None
+
+
+def composition_shapes(n, length, alphabet):
+    one = [k for k in alphabet if k not in ("CNOT", "GP", "I0")]
+    zero = [k for k in alphabet if k in ("GP", "I0")]
+    letters = [(k, (w,)) for k in one for w in range(n)] + [(k, ()) for k in zero]
+    if "CNOT" in alphabet:
+        letters += [("CNOT", (c, t)) for c in range(n) for t in range(n) if c != t]
+    for ln in range(0, length + 1):
+        yield from itertools.product(letters, repeat=ln)
+
+
+def meas_specs(n):
+    yield None
+    for k in range(1, n + 1):
+        yield from (list(p) for p in itertools.permutations(range(n), k))
+
+
+FULL = ["RZ", "RotXZX", "H", "S", "X", "Y", "Z", "I", "I0", "GP", "CNOT"]
+SMALL = ["RZ", "X", "GP", "CNOT"]
+
+
+def composition_obligation(tag, n, length, alphabet, labels, diags):
+    name = f"C74/decomposition:convert_to_mbqc_formalism/composition[{tag}]"
+    desc = (f"real body with callee contracts for the patterns: every tape of <= {length} operations over {alphabet} on {n} logical wire(s) "
+            f"{labels}, every wire assignment, sample() / sample(wires = every ordered non-empty subset): same gates on consistently tracked "
+            "wire chains, final sample reads the requested logical wires in the requested order")
+
+    def fn():
+        cnt = 0
+        for diag in diags:
+            for spec in composition_shapes(n, length, alphabet):
+                for m in meas_specs(n):
+                    used = {i for _, w in spec for i in w} | set(m or [])
+                    if not used:
+                        continue
+                    cnt += 1
+                    bad = composition_run(list(spec), m, diag, labels)
+                    if bad:
+                        return Outcome(REFUTED, "real-body-run+callee-contracts", str(bad), witness=dict(inputs=bad["inputs"]),
+                                       replay=dict(confirmed=True, observed=bad["observed"], expected=bad["expected"], inputs=bad["inputs"]))
+        if cnt == 0:
+            return Outcome(FAULT, "real-body-run+callee-contracts", "empty enumeration")
+        return Outcome(DISCHARGED, "real-body-run+callee-contracts", f"{cnt} tapes: " + desc)
+    return Obligation(name, "post", fn, func=(DEC_FILE, "convert_to_mbqc_formalism"), sample=desc, timeout=900, size_bounded=True)
+
+
+# ------------------------------------------------------------------------------------------- (E) bounded end-to-end stand-in
+def reduced_density(st, wires):
+    for w in wires:
+        st.attach(w)
+    for w in list(st.dirty):
+        st.attach(w)
+    psi = st.psi[0]
+    order = [st.live.index(w) for w in wires]
+    rest = [k for k in range(len(st.live)) if k not in order]
+    m = np.transpose(psi, order + rest).reshape(2 ** len(wires), -1)
+    rho = m @ m.conj().T
+    return rho / np.trace(rho)
+
+
+def end_to_end_obligation(seed, tier):
+    name = "C74/decomposition:convert_to_mbqc_formalism/end-to-end[sampled-circuits,sampled-branches]"
+    desc = ("unmodified convert_to_mbqc_formalism on seeded circuits (1-2 logical wires, up to 9 gates, permuted read-out), sampled outcome branches, "
+            "independent float interpreter: state on the new sample wires == state of the original circuit on the requested wires (tol 1e-7)")
+
+    def fn():
+        qp, D, QubitMgr, AnnotatedQueue, QuantumScript = real_dec()
+        from pennylane.ftqc import RotXZX
+        rng = random.Random(zlib.crc32(f"{seed}:{name}".encode()))
+        ring = NumRing(False)
+        ang = lambda: rng.uniform(-3, 3)
+        one = [lambda w: qp.H(w), lambda w: qp.S(w), lambda w: qp.RZ(ang(), w), lambda w: RotXZX(ang(), ang(), ang(), w),
+               lambda w: qp.X(w), lambda w: qp.Y(w), lambda w: qp.Z(w)]
+        circuits = []
+        for _ in range(3 if tier == "quick" else 8):        # one wire, long: auxiliary wires get recycled
+            ops = [RotXZX(ang(), ang(), ang(), 0)] + [rng.choice(one[:4])(0) for _ in range(8)]
+            ops[rng.randrange(1, 3)] = qp.RZ(ang(), 0)
+            circuits.append((ops, qp.sample(), False))
+        for k in range(4 if tier == "quick" else 10):       # two wires, CNOT, every read-out order
+            labs = [0, 1] if k % 2 == 0 else ["b", "a"]
+            first = rng.randrange(2)
+            ops = [RotXZX(ang(), ang(), ang(), labs[first]), RotXZX(ang(), ang(), ang(), labs[1 - first])]
+            ops += [rng.choice(one)(labs[rng.randrange(2)]) for _ in range(2)]
+            ops.insert(rng.randrange(2, len(ops) + 1), qp.CNOT([labs[k % 2], labs[1 - k % 2]]))
+            ops.append(qp.RZ(ang(), labs[rng.randrange(2)]))
+            mw = [[labs[1], labs[0]], [labs[0], labs[1]], [labs[1]], None][k % 4]
+            circuits.append((ops, qp.sample() if mw is None else qp.sample(wires=mw), k % 3 == 0))
+        for ops, mp, diag in circuits:
+            tape = QuantumScript(ops, [mp])
+            (new_tape,), _p = D.convert_to_mbqc_formalism(tape, diagonalize_mcms=diag)
+            want = list(mp.wires) if len(mp.wires) else list(tape.wires)
+            ref = MState(ring)
+            for o in ops:
+                ref.apply_op(o)
+            rho_ref = reduced_density(ref, want)
+            got = list(new_tape.measurements[0].wires)
+            inputs = dict(operations=[repr(o) for o in ops], measurement=repr(mp), diagonalize_mcms=diag)
+
+            def leaf(st, outcomes, record):
+                if len(got) != len(want):
+                    return dict(inputs=inputs, observed=f"sample on {got}", expected=f"{len(want)} wires")
+                rho = reduced_density(st, got)
+                err = float(np.max(np.abs(rho - rho_ref)))
+                if err > 1e-7:
+                    return dict(inputs=dict(inputs, outcomes="".join(map(str, record))),
+                                observed=f"state on the sampled physical wires {got} differs from the original circuit's state on {want}: max|d rho|={err:.4f}",
+                                expected="identical reduced states for every outcome branch")
+                return None
+            for _ in range(2 if tier == "quick" else 4):
+                bad, n = mbqc_run(ring, list(new_tape.operations), MState(ring), leaf, mode="sample", rng=rng)
+                if bad:
+                    return Outcome(REFUTED, "real-conversion+float-interpreter", str(bad), witness=dict(inputs=bad["inputs"]),
+                                   replay=dict(confirmed=True, observed=bad["observed"], expected=bad["expected"], inputs=bad["inputs"]))
+        return Outcome(DISCHARGED, "real-conversion+float-interpreter(bounded)", desc)
+    return Obligation(name, "post", fn, func=(DEC_FILE, "convert_to_mbqc_formalism"), sample=desc, timeout=900, bounded=True)
+
+
+def add_conversion_half(plan, tier, seed):
+    qp, D, QubitMgr, AnnotatedQueue, QuantumScript = real_dec()
+    from pennylane.ftqc import RotXZX
+
+    # bindings: the operator classes of the gate set denote the reference matrices used by the interpreter (exact, all angles)
+    def bind(nm, mk, ref, names):
+        def fn():
+            S = [sym(n) for n in names]
+            m = poly_matrix(qp.matrix(mk(*S)))
+            r = ref(*S)
+            if m.shape != r.shape or any(not (a - b).is_zero() for a, b in zip(m.flat, r.flat)):
+                return dict(inputs=f"qp.matrix({nm}({', '.join(names)}))", observed=str(m.tolist())[:300], expected="reference matrix of " + nm)
+            return None
+        ob = native(f"C74/binding:{nm}.matrix==reference[all-angles]", fn, f"real {nm} has the documented matrix for all angles (exact)", "queue_single_qubit_gate")
+        ob.func = (DEC_FILE, "queue_single_qubit_gate")
+        return ob
+    R = PolyRing()
+    plan.add(bind("RotXZX", lambda a, b, c: RotXZX(a, b, c, 0), lambda a, b, c: R.mat("RotXZX", (a, b, c)), ["a", "b", "c"]))
+    plan.add(bind("RZ", lambda a: qp.RZ(a, 0), lambda a: R.mat("RZ", (a,)), ["a"]))
+    plan.add(bind("PhaseShift", lambda a: qp.PhaseShift(a, 0), lambda a: R.mat("PhaseShift", (a,)), ["a"]))
+    plan.add(bind("CZ", lambda: qp.CZ([0, 1]), lambda: R.mat("CZ"), []))
+    plan.add(bind("Adjoint(S)", lambda: qp.adjoint(qp.S(0)), lambda: R.mat("Adjoint(S)"), []))
+
+    for gate in ("RZ", "RotXZX", "H", "S", "CNOT"):
+        for diag in (False, True):
+            plan.add(pattern_obligation(gate, diag, seed))
+    for f in ("queue_single_qubit_gate", "queue_corrections", "_rz_measurements", "_rot_measurements", "_hadamard_measurements", "_s_measurements",
+              "_rotation_corrections", "_hadamard_corrections", "_s_corrections", "queue_cnot", "cnot_measurements", "cnot_corrections",
+              "_cnot_xz_corrections", "_generate_cnot_graph", "convert_to_mbqc_formalism"):
+        plan.fn_under_contract(DEC_FILE, f)
+
+    thorough = tier != "quick"
+    comps = [("1-wire,len<=3,full-gate-set", 1, 3, [k for k in FULL if k != "CNOT"], [0], (False, True)),
+             ("2-wires,len<=2,full-gate-set", 2, 2, FULL, [0, 1], (False, True)),
+             ("2-wires,len<=2,full-gate-set,labels-b-a", 2, 2, FULL, ["b", "a"], (False,)),
+             ("2-wires,len<=3,reduced-gate-set", 2, 4 if thorough else 3, SMALL, [1, 0], (False, True)),
+             ("3-wires,len<=2,reduced-gate-set", 3, 3 if thorough else 2, SMALL, ["q", 0, 5], (False, True))]
+    for tag, n, ln, alpha, labels, diags in comps:
+        plan.add(composition_obligation(tag, n, ln, alpha, labels, diags))
+        plan.size_bounds.append(f"convert_to_mbqc_formalism composition [{tag}]: tapes of <= {ln} operations over {alpha} on {n} wire(s) {labels}; "
+                                "all wire assignments and all ordered read-out subsets; angles symbolic")
+    plan.add(end_to_end_obligation(seed, tier))
+
+    def rejects():
+        bad_tapes = [QuantumScript([qp.H(0)], [qp.expval(qp.Z(0))]), QuantumScript([qp.H(0)], [qp.sample(wires=0), qp.sample(wires=0)]),
+                     QuantumScript([qp.H(0)], []), QuantumScript([qp.H(0)], [qp.probs(wires=0)])]
+        for t in bad_tapes:
+            r = call(D.convert_to_mbqc_formalism, t)
+            if r != ("raise", "NotImplementedError"):
+                return dict(inputs=repr(t.measurements), observed=repr(r)[:200], expected="NotImplementedError (only a single sample measurement is converted)")
+        r = call(D.convert_to_mbqc_formalism, QuantumScript([qp.T(0)], [qp.sample()]))
+        if r[0] != "raise":
+            return dict(inputs="T(0)", observed=repr(r)[:200], expected="an exception for a gate outside the MBQC gate set")
+        return None
+    ob = native("C74/decomposition:convert_to_mbqc_formalism/rejects-unsupported-measurements-and-gates", rejects,
+                "anything but one sample measurement -> NotImplementedError; gate outside the gate set -> exception", "convert_to_mbqc_formalism", bounded=True)
+    ob.func = (DEC_FILE, "convert_to_mbqc_formalism")
+    plan.add(ob)
+
+    plan.explanation += (" Conversion half: the real pattern functions of ftqc/decomposition.py (queue_single_qubit_gate/queue_corrections for RZ, RotXZX "
+                         "with symbolic angles, H, S; queue_cnot/cnot_corrections) are run and the operators they queue are interpreted on every outcome "
+                         "branch by an independent exact interpreter (Laurent polynomials / Gaussian integers): out wire carries U|psi>, all released "
+                         "wires are |0>. The real body of convert_to_mbqc_formalism is run with callee contracts for these patterns over enumerated "
+                         "tape shapes: same gates on tracked wire chains, read-out wires in the requested order.")
+    plan.trusted_base += ["independent MBQC interpreter in contracts/C74.py (graph state = CZ_edges.H^n|0..0>, nodes sorted <-> wires; measurement "
+                          "bases |0>,|1> / |0> +- e^{ia}|1>; reset = wire back to |0>; Conditional = apply iff the MeasurementValue is true)",
+                          "composition argument (stated, not mechanised): pattern contracts (P) + composition contract (C) + induction over the "
+                          "operation list => converted circuit implements the original on the logical wires for every outcome branch"]
+    plan.assumptions += ["MeasurementValue arithmetic (^, ~, parity) is evaluated with the REAL processing_fn on concrete outcome bits; a conditional "
+                         "measurement that is not executed contributes outcome 0 (cond_measure's `v1 or v2`)",
+                         "states are compared up to one non-zero scalar per outcome branch (global phase / branch amplitude); GlobalPhase is not tracked",
+                         "pattern functions are wire-label generic: run on 2-3 QubitMgr layouts (set.pop order), not on every labelling",
+                         "the original circuit starts in |0..0> (tape semantics), so the initial placement of logical wires on clean wires is free"]
+    plan.assumed_contracts += ["QubitMgr.acquire_qubit(s) returns wires from the inactive pool only and release moves them back (real class used, not verified)",
+                               "QuantumScript.from_queue / tape.copy keep the queued operators in order (real code used to read the queue)"]
+    plan.unverified[:] = [u for u in plan.unverified if not (u.startswith("convert_to_mbqc_gateset / convert_to_mbqc_formalism")
+                                                             or u.startswith("measurement-branch correctness"))]
+    plan.unverified += ["convert_to_mbqc_gateset (decomposition into the MBQC gate set; graph decomposition solver)",
+                        "convert_to_mbqc_formalism on tapes longer / wider than the enumerated shapes is covered only through the stated composition argument",
+                        "execution semantics of the devices for ParametricMidMeasure / GraphStatePrep (the interpreter uses the documented semantics)",
+                        "program-capture (plxpr) path of make_graph_state / cond_measure"]
